@@ -263,6 +263,23 @@ Definition verify_choice (marks : list nat) (outs : list str) (gen : str) : res 
   if marks_in_range marks (List.length outs) then verify_choice_from 0 marks outs gen
   else Err EWrongAnswer.
 
+(* verifyParseError ([want] = true) / verifyNoParseError ([want] = false):
+   verifyAnswerInRange against the number of archive files, then the walk with
+   the two tests.  [perrs] is generateParseErrors: one flag per file of the
+   txtar archive, true when the file has a parse error. *)
+Fixpoint verify_flags_from (want : bool) (i : nat) (marks : list nat) (perrs : list bool) : res unit :=
+  match perrs with
+  | [] => Ok tt
+  | p :: t =>
+      if mem_nat i marks && negb (Bool.eqb p want) then Err EWrongAnswer
+      else if negb (mem_nat i marks) && Bool.eqb p want then Err EWrongAnswer
+      else verify_flags_from want (S i) marks t
+  end.
+
+Definition verify_parse_flags (want : bool) (marks : list nat) (perrs : list bool) : res unit :=
+  if marks_in_range marks (List.length perrs) then verify_flags_from want 0 marks perrs
+  else Err EWrongAnswer.
+
 Section Verify.
   Variable run : str -> str.       (* renderer.go: runEvy(source, m.ResultType) *)
 
@@ -497,8 +514,30 @@ Fixpoint fmops_run (f : fm) (ops : list sx) : list sx :=
 Definition spaces_case : sx :=
   Lst (map (fun n => Int (Z.of_nat n)) (filter (fun n => is_space (N.of_nat n)) (upto 12544))).
 
+(* (verifyflags want atype "answer" (flag…)): an unsealed question with
+   verification parse-error (want = true) / no-parse-error (want = false):
+   getAnswer, NewAnswer, then verifyParseError / verifyNoParseError *)
+Fixpoint dec_bools (l : list sx) : option (list bool) :=
+  match l with
+  | [] => Some []
+  | x :: t => match dec_bool x, dec_bools t with Some b, Some r => Some (b :: r) | _, _ => None end
+  end.
+
+Definition verifyflags_case (want : bool) (ty : atype) (ans : str) (flags : list bool) : sx :=
+  if is_nil ans then enc_err ENoAnswer
+  else match answer_marks ty ans with
+       | Err e => enc_err e
+       | Ok marks => enc_res_unit (verify_parse_flags want marks flags)
+       end.
+
 Definition seal_case (x : sx) : sx :=
   match x with
+  | Lst [tag; want; ty; Str ans; Lst flags] =>
+      match dec_bool want, dec_atype ty, dec_bools flags with
+      | Some want, Some ty, Some flags =>
+          if sym_is tag "verifyflags" then verifyflags_case want ty ans flags else Sym (s_ "decode-error")
+      | _, _, _ => Sym (s_ "decode-error")
+      end
   | Lst [tag] => if sym_is tag "spaces" then spaces_case else Sym (s_ "decode-error")
   | Lst [tag; Str h] =>
       match dec_hex h with
